@@ -1,7 +1,7 @@
 """C04 -- $not consumes exactly one instruction (or operand) at which its argument fails."""
 from ..tmplcheck import family_results, report
 
-FLOORS = {"C04.N1.lookahead": 40, "C04.N2.unit-instruction": 20, "C04.N2.unit-operand": 15}
+FLOORS = {"C04.Q.searched-stream-is-this-operations": 2, "C04.N1.lookahead": 40, "C04.N2.unit-instruction": 20, "C04.N2.unit-operand": 15}
 
 
 def run(ctx) -> None:
@@ -40,3 +40,6 @@ def run(ctx) -> None:
     from ..streamshapes import witnesses
     if ctx.tier == "thorough" or ('not',):
         witnesses(ctx, _mkw(ctx.p), "C04.W.canonical-witness-is-found", tags=('not',) if ctx.tier != "thorough" or "C04" != "C07" else ())
+    # Q: the regex is searched in the stream of this operation's own listing (nothing carried over from an earlier operation)
+    from ._matchrules import stream_per_run
+    stream_per_run(ctx, "C04.Q.searched-stream-is-this-operations")
